@@ -93,7 +93,7 @@ CHECKS = {
     },
     "C04": {
         "runs": [
-            R(LAB, "^TestC04", {"checks": 1500, "timeout": 600}, {"checks": 40000, "shards": 16, "timeout": 2400}),
+            R(LAB, "^TestC04", {"checks": 1500, "timeout": 600}, {"checks": 15000, "shards": 16, "timeout": 2400}),
             R("./middleware", "^TestC04TimeFrame", {"checks": 20000, "timeout": 300}, {"checks": 400000, "shards": 8, "timeout": 1200}),
         ],
     },
@@ -245,6 +245,9 @@ _MORE = {
 }
 _MORE11 = {'C02': 'Run TestC02EarlyReply: an origin that answers on the request head alone (200/401/413/302) while the client is still uploading 64 KiB - 32 MiB (Content-Length or chunked; the upload is made of lines that read like requests), then closes or reads on; 1-3 follow-up requests on the same connection: each response answers its own request or the connection ends without a message, and nothing of the upload reaches the origin as a request.', 'C04': 'A case may open with a crowd: 2-8 clients presenting the configured credentials and as many presenting wrong ones of the same length (password or user differing in one octet), 25 requests each at the same time; every one is decided on its own credentials. One deny list names this machine (127.0.0.x, localhost, ::1): the list decides for every host whatever --proxy-localhost says.', 'C07': 'A case may churn the cache: 32 sessions for 32 different hosts at the same moment against a cache of one or two leaves, three rounds.', 'C09': "Server-ends-first schedules: the server answers and ends its side of a stream while the client is still uploading; the client's further DATA stays within the window the server granted and never enlarges.", 'C10': 'The client side may be a TCP connection that shuts down its sending side at the end and goes on reading: what the server sends afterwards still arrives.', 'C11': "A connection that had exchanged nothing before shutdown may be parked (registration racing with Shutdown) until the drain ends; with a drain without limit it is judged then: closed by the proxy, never answered. Run TestC11Reaped (tunnel grace period shortened to 0.5 s through the laboratory's hook): 1-4 CONNECT / Upgrade tunnels whose origin has said everything and closed and whose client stays silent (or closes: control); shutdown 0-1.2 s after the origin finished, i.e. before or after the forced close is due: it succeeds once the tunnels are reaped - not at its own deadline -, every accepted socket is closed, the gauge returns to zero.", 'C12': 'Hostile streams also go to the PROXY-protocol listener: after a proper v1 line, or as a version-2 header with a declared length anywhere from 0 to 65535 (around 12, 36, 216, 232, 256, 536, ...), any version/command and family octet, address block and TLVs filled with one octet value, complete or cut short, a request behind it; FuzzC12Hostile has the listener and such a header in its corpus.', 'C14': 'Run TestC14Idle: eight histories side by side, each 2-4 evaluations of one script on one resolver or the pool, some of which throw (exception, reference to something undefined), with pauses of 0-6.5 s between them: what an evaluation returns does not depend on what was asked before nor on how long ago.', 'C17': '(Binary) the generated list may name this machine (^127\\., (?i)^localhost$, an exclusion for 127.0.0.9) and the hosts asked include 127.0.0.1, 127.0.0.9, localhost, LOCALHOST, with --proxy-localhost absent / deny (local hosts refused anyway) / allow / direct (the list alone decides).', 'C19': 'A case may add one more --credentials entry for the target of an existing one (exact host:port, host:*, *:*): every option is well-formed, the binary refuses the list as a whole; stdout, stderr and the log file of that refused start are scanned like any start-up log.'}
 for _k, _v in _MORE11.items():
+    _MORE[_k] = _MORE[_k] + " " + _v if _k in _MORE else _v
+_MORE12 = {'C02': 'Ordinary responses may advertise an upgrade (Connection: Upgrade with Upgrade: h2c / TLS/1.2, HTTP/1.1 / websocket) without switching: status, other fields, body and the order of responses are judged as always; whether the advertisement is passed on is not.', 'C11': "A tunnel's client (bare mode) may, after the generated actions, send one more request through the tunnel, shut down its sending side and wait for an answer the origin spreads over 1.4 s: all of it arrives.", 'C12': 'Fault-free replies may have a status line that ends with the code (HTTP/1.1 200) or with code and a space.', 'C14': 'Run TestC14ColdStart: 25 trials per case, each with a new pool (or one that answered 1-3 evaluations), 2-16 callers released at the same instant, each asking for a host of its own; the injected lookup holds every caller inside its evaluation until the others are inside theirs (3 ms at most): each gets the answer for its own host. The workers of the tree run start together too.', 'C19': 'A case may point --proxy (password in the URL or from --credentials) at a port nobody listens on: the start-up log taken before any exchange, /configz and the error responses to a GET and a CONNECT are scanned.', 'C04': "Crowds ask for a host of their own and are followed by a wait for quiescence of the proxy's dial log."}
+for _k, _v in _MORE12.items():
     _MORE[_k] = _MORE[_k] + " " + _v if _k in _MORE else _v
 for _k, _v in _MORE.items():
     RULES[_k] = RULES[_k].rstrip() + " " + _v
